@@ -26,7 +26,7 @@ func init() {
 		Phases: func(tier string, seed int64) []Phase {
 			return []Phase{{Name: "fences", Race: true, Run: c12Run}}
 		},
-		MinObserved: []string{"fences_checked", "order/stop-before-run", "order/race-startup", "order/after-ready", "runs_with_handlers_parked_at_stop", "runs_with_onclose_slow", "runs_with_connect_storm", "runs_with_tls_sessions_torn_down", "tls_sessions_served_before_stop", "runs_with_parked_handlers_whose_client_hung_up", "runs_with_an_unbind_handler_held_at_stop", "runs_with_tls_handlers_parked_at_stop", "runs_with_onclose_held_for_seconds", "runs_with_an_onclose_callback_running_and_no_connection_open_at_stop", "runs_with_handlers_held_more_than_a_second_after_stop", "runs_with_parked_handlers_whose_session_ended_with_an_unbind", "tls_listener_connections_refused_during_the_handshake", "runs_on_a_server_without_panic_recovery_with_handlers_parked_at_stop", "runs_with_handlers_parked_beyond_the_read_timeout", "runs_with_clients_that_half_closed_before_stop"},
+		MinObserved: []string{"fences_checked", "order/stop-before-run", "order/race-startup", "order/after-ready", "runs_with_handlers_parked_at_stop", "runs_with_onclose_slow", "runs_with_connect_storm", "runs_with_tls_sessions_torn_down", "tls_sessions_served_before_stop", "runs_with_parked_handlers_whose_client_hung_up", "runs_with_an_unbind_handler_held_at_stop", "runs_with_tls_handlers_parked_at_stop", "runs_with_onclose_held_for_seconds", "runs_with_an_onclose_callback_running_and_no_connection_open_at_stop", "runs_with_handlers_held_more_than_a_second_after_stop", "runs_with_parked_handlers_whose_session_ended_with_an_unbind", "tls_listener_connections_refused_during_the_handshake", "runs_on_a_server_without_panic_recovery_with_handlers_parked_at_stop", "runs_with_handlers_parked_beyond_the_read_timeout", "runs_with_clients_that_half_closed_before_stop", "fences_on_servers_with_a_write_timeout_whose_clients_waited_for_the_close"},
 	})
 }
 
@@ -103,6 +103,16 @@ func c12One(c *Ctx, r *Rand, idx int) {
 	if state == "tls-teardown" || state == "tls-parked" {
 		c12PKIOnce.Do(func() { c12PKI = newPKI() })
 		cfg.TLS = c12PKI.ServerOnly
+	}
+	switch {
+	case idx%5 == 3:
+		// servers that bound their writes (and, every other time, their reads too: far beyond the length of a run)
+		cfg.WriteTimeout = 30 * time.Second
+		if idx%2 == 0 && cfg.ReadTimeout == 0 {
+			cfg.ReadTimeout = 2 * time.Hour
+		}
+	case idx%10 == 6:
+		cfg.WriteTimeout = 2 * time.Hour
 	}
 	srv, err := newSrv(cfg)
 	if err != nil {
@@ -577,6 +587,9 @@ func c12One(c *Ctx, r *Rand, idx int) {
 	l := append([]net.Conn{}, clients...)
 	cmu.Unlock()
 	buf := make([]byte, 4096)
+	if cfg.WriteTimeout != 0 && len(l) > 0 {
+		c.Count("fences_on_servers_with_a_write_timeout_whose_clients_waited_for_the_close", 1)
+	}
 	for _, cn := range l {
 		cn.SetReadDeadline(time.Now().Add(2 * time.Second))
 		for {
